@@ -11,7 +11,7 @@ def run(task):
     repo,ct=cli.load_all()
     REG.active_regions={k["region"] for k in cli.load_known()}
     con=REG.contracts[(rp,q)]
-    info=repo.func(rp,q)
+    info=repo.func(rp,con.func or q)
     m,desc=mutants.mutant(info,k)
     if not desc: return None
     fr=verify_function(repo,ct,REG,con,mutate=lambda i:m)
@@ -29,7 +29,7 @@ if __name__=='__main__':
     tasks=[]
     for (rp,q),con in REG.contracts.items():
         if names!=['all'] and q not in names: continue
-        info=repo.func(rp,q)
+        info=repo.func(rp,con.func or q)
         for k in range(mutants.count_sites(info.node)): tasks.append((rp,q,k))
     with mp.get_context('fork').Pool(16) as pool:
         res=[r for r in pool.map(run,tasks,chunksize=1) if r]
